@@ -47,7 +47,7 @@ MANIFEST = {
             "closed curve started at another vertex, ring / curve / line direction reversed, holes / members / points in another order (relateParts_same, "
             "relateSpec_same_parts, partsSame_members, relateSpec_polygon_same/_ext_reverse/_hole_reverse/_ext_rotate/_hole_rotate/_holes_perm, "
             "relateSpec_multiPolygon_member/_perm, relateSpec_lineString_reverse/_rotate, relateSpec_line_swap, relateSpec_multiLineString_member/_perm, "
-            "relateSpec_multiPoint_perm, relateParts_congr; via: intersection vertices independent of segment directions and of the order / multiplicity of "
+            "relateSpec_multiPoint_perm, relateSpec_collection_perm, locate_collection_perm, relateParts_congr; via: intersection vertices independent of segment directions and of the order / multiplicity of "
             "the segments (segVertex_swap_left, segVertex_self, mem_pairVertices_iff), atoms of a segment independent of its direction "
             "(mem_segAtoms_swap)). Not proved: "
             "that the remaining cells (IE, BE, EI, EB) of separated operands equal the dimensions passed to compute_disjoint. The adequacy of the "
